@@ -8,6 +8,9 @@
 //!   B <tag>                            `<tag id="a&bogus;b">`: malformed entity in id (spectrum) / spectrumRef (precursor)
 //!   E <tag>                            `</tag>`
 //!   Z <tag>                            `<tag/>`  (o<k>: a userParam)
+//!   L <text hex>                       the next start tag gets `defaultArrayLength="text"` (binaryDataArray:
+//!                                      `arrayLength="text" encodedLength="text"`); without an L event the renderer
+//!                                      writes (mostly) the true values; the reader must ignore them
 //!   C <cv 0..20> <val> <unit>          `<cvParam accession=.. value=.. unitAccession=../>`
 //!                                      val: a (absent) | g (garbage) | f <f32 bits> | n <integer>;  unit: s m o a
 //!   T e | T b | T d <wire hex> <inflated: 0 | 1 hex>     text: empty | not base64 | base64(wire)
@@ -44,7 +47,12 @@ pub const INFO: Info = Info {
            class; `chaos`: well-nested random trees with elements in wrong places; `tic-zero`: the recorded \
            defect; routes: direct parse, read_spectra from a file named .mzML/.mzml/.MZML, read_spectra from a gzip file named \
            .mzML.gz/.mzml.gz/.MZML.GZ/.mzml.Gz (and read_mzml for .mzML.gzip) - all spellings the unchanged code reads; \
-           ids and spectrumRefs with characters that need XML escaping (entities and numeric references). mzmlraw: truncations, \
+           ids and spectrumRefs with characters that need XML escaping (entities and numeric references); \
+           array-length attributes: the renderer writes the true defaultArrayLength / arrayLength / encodedLength \
+           (or omits them), stream `length-attr` writes 0, off-by-some, u64::MAX, 9999999999999999999, 2^63, 2^63-1, \
+           2^64, a 26-digit number, negative and non-numeric texts on <spectrum> and/or every <binaryDataArray> of \
+           documents with non-empty arrays (nothing between 2^30 and 2^62, which a pre-sizing reader might really \
+           allocate): the reply must be the one without the attribute. mzmlraw: truncations, \
            byte flips, deletions, duplications, insertions and concatenations of rendered documents. \
            Non-trivial = at least two events inside a <spectrum>; distinct by request line",
     serial: false,
@@ -83,6 +91,8 @@ enum Ev {
     Start(Tag, Option<String>, Option<String>),
     /// start tag whose id / spectrumRef attribute holds a malformed entity
     StartBad(Tag),
+    /// text of the array-length attributes of the next start tag (defaultArrayLength / arrayLength + encodedLength)
+    LenAttr(String),
     End(Tag),
     EmptyTag(Tag),
     Cv(usize, Val, char),
@@ -192,6 +202,9 @@ fn write_events(o: &mut Out, evs: &[Ev]) {
             Ev::StartBad(t) => {
                 o.raw("B").raw(&tag_tok(t));
             }
+            Ev::LenAttr(v) => {
+                o.raw("L").s(v);
+            }
             Ev::End(t) => {
                 o.raw("E").raw(&tag_tok(t));
             }
@@ -252,6 +265,7 @@ fn read_events(t: &mut Toks) -> Option<Vec<Ev>> {
                 Ev::Start(g, id, rf)
             }
             "B" => Ev::StartBad(parse_tag(t.tok()?)?),
+            "L" => Ev::LenAttr(t.string()?),
             "E" => Ev::End(parse_tag(t.tok()?)?),
             "Z" => Ev::EmptyTag(parse_tag(t.tok()?)?),
             "C" => {
@@ -355,6 +369,38 @@ fn xml_escape(v: &str, r: &mut Rng) -> String {
     o
 }
 
+/// (number of values, base64 length) of the first data payload between `from` and the end tag `until`
+fn true_lengths(evs: &[Ev], from: usize, until: &Tag) -> (usize, usize) {
+    let mut is64 = true;
+    let mut zlib = false;
+    for e in &evs[from + 1..] {
+        match e {
+            Ev::End(t) if t == until => break,
+            Ev::Start(Tag::Bda, _, _) => {
+                is64 = true;
+                zlib = false;
+            }
+            Ev::Cv(c, _, _) if *c == F64 => is64 = true,
+            Ev::Cv(c, _, _) if *c == F32 => is64 = false,
+            Ev::Cv(c, _, _) if *c == ZLIB => zlib = true,
+            Ev::Cv(c, _, _) if *c == NOCOMP => zlib = false,
+            Ev::Text(Payload::Data(w, inf)) => {
+                let n = match (zlib, inf) {
+                    (true, Some(b)) => b.len(),
+                    _ => w.len(),
+                };
+                return (n / if is64 { 8 } else { 4 }, (w.len() + 2) / 3 * 4);
+            }
+            _ => {}
+        }
+    }
+    (0, 0)
+}
+
+fn attr_text(v: &str) -> String {
+    v.replace('&', "&amp;").replace('<', "&lt;").replace('"', "&quot;").replace('\'', "&apos;")
+}
+
 /// events -> XML text. Everything drawn from `style` is something the parser must not care about.
 fn render(style: u64, evs: &[Ev]) -> Vec<u8> {
     let mut r = Rng::new(style);
@@ -386,8 +432,10 @@ fn render(style: u64, evs: &[Ev]) -> Vec<u8> {
             }
         }
     };
-    for e in evs {
+    let mut pending_len: Option<String> = None;
+    for (ev_index, e) in evs.iter().enumerate() {
         match e {
+            Ev::LenAttr(v) => pending_len = Some(v.clone()),
             Ev::Start(t, id, rf) => {
                 sep(&mut s, &mut r, depth, bin_open);
                 s.push('<');
@@ -398,8 +446,29 @@ fn render(style: u64, evs: &[Ev]) -> Vec<u8> {
                 if let Some(id) = id {
                     s.push_str(&format!(" id={q}{}{q}", xml_escape(id, &mut r)));
                 }
-                if *t == Tag::Sp || *t == Tag::Bda {
-                    s.push_str(&format!(" defaultArrayLength={q}3{q}"));
+                // array-length attributes: the request's text if it gives one, else (mostly) the true values
+                let given = pending_len.take();
+                if *t == Tag::Bda {
+                    let (n, enc) = true_lengths(evs, ev_index, &Tag::Bda);
+                    match given {
+                        Some(v) => {
+                            let v = attr_text(&v);
+                            s.push_str(&format!(" arrayLength={q}{v}{q} encodedLength={q}{v}{q}"));
+                        }
+                        None => {
+                            if r.chance(1, 2) {
+                                s.push_str(&format!(" arrayLength={q}{n}{q}"));
+                            }
+                            if r.chance(5, 6) {
+                                s.push_str(&format!(" encodedLength={q}{enc}{q}"));
+                            }
+                        }
+                    }
+                } else if let Some(v) = given {
+                    s.push_str(&format!(" defaultArrayLength={q}{}{q}", attr_text(&v)));
+                } else if *t == Tag::Sp && r.chance(5, 6) {
+                    let (n, _) = true_lengths(evs, ev_index, &Tag::Sp);
+                    s.push_str(&format!(" defaultArrayLength={q}{n}{q}"));
                 }
                 if let Some(rf) = rf {
                     s.push_str(&format!(" spectrumRef={q}{}{q}", xml_escape(rf, &mut r)));
@@ -423,6 +492,7 @@ fn render(style: u64, evs: &[Ev]) -> Vec<u8> {
                     Tag::Pre => "spectrumRef",
                     _ => "id",
                 };
+                pending_len = None;
                 s.push_str(&format!("<{} {attr}={q}{bad}{q}>", tag_name(t)));
                 depth += 1;
                 if *t == Tag::Bin {
@@ -674,6 +744,9 @@ pub fn exec(op: &str, t: &mut Toks) -> Option<String> {
                 prev_text = matches!(e, Ev::Text(p) if *p != Payload::Empty);
             }
             let doc = render(style, &evs);
+            if std::env::var_os("VERIF_C16_DUMP").is_some() {
+                eprintln!("{}", String::from_utf8_lossy(&doc)); // debugging aid: the rendered XML
+            }
             Some(match (style % 3, filter) {
                 (1, None) => parse_via_file(false, style, sn, &doc),
                 (2, None) => parse_via_file(true, style, sn, &doc),
@@ -1300,6 +1373,36 @@ fn mutate_bytes(r: &mut Rng, doc: &[u8], other: &[u8]) -> (Vec<u8>, &'static str
     }
 }
 
+/// array-length attribute texts a reader must not trust. Nothing between ~2^30 and 2^62: a reader that did
+/// pre-size a buffer from such a value might really get the memory (or be killed by the allocator, taking the
+/// harness with it); from 2^63 on `Vec::with_capacity` fails with a catchable capacity-overflow panic.
+const HOSTILE_LENGTHS: [&str; 20] = [
+    "0", "1", "2", "7", "1000", "65536", "18446744073709551615", "9999999999999999999", "9223372036854775808",
+    "9223372036854775807", "18446744073709551616", "99999999999999999999999999", "-1", "-9223372036854775808",
+    "abc", "", "1e3", " 5", "0x10", "3.0",
+];
+
+/// put a length-attribute text in front of the `<spectrum>` / `<binaryDataArray>` start tags
+fn with_len_attrs(evs: &[Ev], r: &mut Rng, sp_pct: u32, bda_pct: u32, only: Option<&str>) -> Vec<Ev> {
+    let mut out = Vec::with_capacity(evs.len() + 8);
+    for e in evs {
+        let pct = match e {
+            Ev::Start(Tag::Sp, _, _) => sp_pct,
+            Ev::Start(Tag::Bda, _, _) => bda_pct,
+            _ => 0,
+        };
+        if pct > 0 && r.chance(pct, 100) {
+            let v = match only {
+                Some(v) => v.to_string(),
+                None => (*r.pick(&HOSTILE_LENGTHS)).to_string(),
+            };
+            out.push(Ev::LenAttr(v));
+        }
+        out.push(e.clone());
+    }
+    out
+}
+
 fn nontrivial(evs: &[Ev]) -> bool {
     evs.len() >= 4
 }
@@ -1482,6 +1585,45 @@ pub fn gen(rng: &mut Rng, tier: Tier, emit: &mut dyn FnMut(Case)) {
         e.arrays.push(b);
         let evs = doc_events(&[e], rng, 0);
         emit(Case::new(request(style_for(rng, 0), None, None, &evs)).tag("undeclared-kind"));
+    }
+
+    // --- C4: hostile array-length attributes (defaultArrayLength / arrayLength / encodedLength): they must be ignored
+    for (i, v) in HOSTILE_LENGTHS.iter().enumerate() {
+        for variant in 0..(if quick { 3 } else { 12 }) {
+            let lv = *rng.pick(&[1u8, 2, 2]);
+            let mut els = vec![gen_el(rng, 0, &Opts { level: lv, noise_cv: 0, rich: Some(true) })];
+            if variant % 3 == 2 {
+                els.push(gen_el(rng, 1, &Opts { level: 2, noise_cv: 10, rich: None }));
+            }
+            let evs = doc_events(&els, rng, if variant % 2 == 0 { 0 } else { 15 });
+            // variant 0: on <spectrum> only; 1: on every <binaryDataArray> only; 2: everywhere
+            let (sp, bda) = match variant % 3 {
+                0 => (100, 0),
+                1 => (0, 100),
+                _ => (100, 100),
+            };
+            let evs = with_len_attrs(&evs, rng, sp, bda, Some(v));
+            let (filter, sn) = if variant % 3 == 2 { rand_cfg(rng) } else { (None, None) };
+            let route = if i % 5 == 4 && filter.is_none() { 1 + (variant as u64 % 2) } else { 0 };
+            emit(Case::new(request(style_for(rng, route), filter, sn, &evs))
+                .tag("length-attr")
+                .tag_if(v.len() >= 19, "length-attr:huge")
+                .tag_if(v.starts_with('-'), "length-attr:negative")
+                .tag_if(v.parse::<u64>().is_err() && !v.starts_with('-') && v.len() < 19, "length-attr:non-numeric"));
+        }
+    }
+    for _ in 0..20 * scale {
+        // random mixtures, also in documents with faults elsewhere
+        let els: Vec<El> = (0..1 + rng.below(3))
+            .map(|n| {
+                let level = *rng.pick(&[1u8, 2, 2]);
+                gen_el(rng, n, &Opts { level, noise_cv: 10, rich: None })
+            })
+            .collect();
+        let evs = doc_events(&els, rng, 15);
+        let evs = with_len_attrs(&evs, rng, 60, 60, None);
+        let (filter, sn) = rand_cfg(rng);
+        emit(Case::new(request(style_for(rng, 0), filter, sn, &evs)).tag("length-attr").tag("length-attr:mixed"));
     }
 
     // --- D: the recorded defect (TIC = 0), kept small and apart
